@@ -118,6 +118,7 @@ var scens = []scen{
 		Readers: []rspec{{"B", 1, 0}, {"B", 2, 0}}, Bound: [2]int{2, 3}},
 	{Name: "c10-close-and-reopen-id", Props: []string{"C10"}, IDs: []uint32{1, 2}, Qlen: 8, Script: "reopen", Bound: [2]int{2, 4}},
 	{Name: "c10-traffic-for-closed-id", Props: []string{"C10"}, IDs: []uint32{1, 2}, Qlen: 2, Script: "closed-id-flood", Bound: [2]int{2, 4}},
+	{Name: "c10-traffic-for-closed-id-short-reads", Props: []string{"C10"}, IDs: []uint32{1, 2}, Qlen: 2, Script: "closed-id-flood", Short: true, Bound: [2]int{2, 3}},
 	{Name: "c11-stale-handle-closed-again", Props: []string{"C11", "C10"}, IDs: []uint32{1, 2}, Qlen: 8, Script: "reopen-stale-close", Bound: [2]int{2, 4}},
 	{Name: "c11-listener", Props: []string{"C11"}, IDs: []uint32{3}, Qlen: 8, Listener: true,
 		Closers: []cspec{{"listener:A:3", 2}}, Bound: [2]int{3, 4}},
